@@ -516,7 +516,17 @@ def overlap_case(ctx, case):
     P5.overlap_case(ctx, case)
 
 
-COMPONENTS = {'overlap': overlap_case,
+def carrier_case(ctx, case):
+    """A library packet with a Position field, written and read back under
+    its version's layout; the decoded coordinates are looked at after the
+    context object has moved on to a version of the other layout (C05's
+    packet machinery restricted to position carriers)."""
+    from props import c05_roundtrip as P5
+    P5.defn_case(ctx, case)
+
+
+COMPONENTS = {'overlap': overlap_case, 'carrier': carrier_case,
+              'defn': carrier_case,     # C05 files failures under its name
               'via_connection': via_connection_case,
               'reuse': reuse_case, 'layout': layout_case,
               'switch': switch_case,
@@ -692,6 +702,38 @@ def t_overlap(ctx, step):
                         '(736/751): suspension points x 4 read/write pairs')
 
 
+def t_carriers(ctx, lo, hi):
+    from props import c05_roundtrip as P5
+    kp = known_protocols()
+    sup = [v for v in P5.supported() if v in kp][lo:hi]
+    triples = [(0, 0, 0), (-2 ** 25, -2 ** 11, -2 ** 25),
+               (2 ** 25 - 1, 2 ** 11 - 1, 2 ** 25 - 1), (1200, 65, -420),
+               (-1, 2047, 1), (1, -2048, -1), (12345, 255, -54321)]
+    n = 0
+    for d, s_, cls, v in P5.pairs_for(sup):
+        try:
+            fl = P5.fields_of(cls, v)
+        except Exception:
+            continue
+        if not any(P5.T2.spec_name(sp) == 'Position' for _n, _t, sp in fl):
+            continue
+        for r, xyz in enumerate(triples):
+            vals = {}
+            for i, (name, t, sp) in enumerate(fl):
+                if P5.T2.spec_name(sp) == 'Position':
+                    vals[name] = xyz
+                else:
+                    b = P5.boundaries(sp, v)
+                    vals[name] = b[(r + i) % len(b)]
+            case = {'direction': d, 'state': s_, 'cls': cls.__name__,
+                    'version': v, 'values': vals}
+            carrier_case(ctx, case)
+            n += 1
+            if n % 400 == 1:
+                ctx.sample(case, 'carrier')
+    ctx.label("carrier_task")
+
+
 def t_via_connection(ctx, n):
     import minecraft
     sup = list(minecraft.SUPPORTED_PROTOCOL_VERSIONS)
@@ -727,6 +769,10 @@ def tasks(tier):
                                      t_sections_records, {}),
           ('via_connection', t_via_connection, dict(n=60 if q else 1500)),
           ('overlap', t_overlap, dict(step=2 if q else 1))]
+    ns = len(known_protocols())
+    for i in range(4):
+        tl.append(('carriers_%d' % i, t_carriers,
+                   dict(lo=ns * i // 4, hi=ns * (i + 1) // 4)))
     nsh = 14
     for i in range(nsh):
         tl.append(('versions_%d' % i, t_versions,
